@@ -835,8 +835,9 @@ func TypeConforms(ctx map[ast.Variable]ast.BaseTerm, left ast.BaseTerm, right as
 	}
 	if leftConst, ok := left.(ast.Constant); ok {
 		if rightConst, ok := right.(ast.Constant); ok {
-			// /foo/bar <: /foo: the prefix has to end at a part boundary.
-			if strings.HasPrefix(leftConst.Symbol, rightConst.Symbol+"/") {
+			// /foo/bar <: /foo: the prefix has to end at a part boundary. The right side has to be
+			// a name prefix type itself: /number/foo is a type of names, not of numbers.
+			if isNamePrefixType(rightConst) && strings.HasPrefix(leftConst.Symbol, rightConst.Symbol+"/") {
 				return true
 			}
 			// A name prefix type such as /foo conforms to /name; base types do not.
